@@ -41,7 +41,7 @@ def real_to_model(outcome):
     if w[0] == "ERR":
         f = w[1].split(" ")
         if f[0] != "E":
-            return "Panic 98", None, None
+            return "ErrNoAction", None, None
         pos = int(f[1])
         exp = [] if f[5] == "-" else [int(x) for x in f[5].split(",")]
         return "Err %d %s" % (tok_index(pos), gl_nats(exp)), None, None
